@@ -1,5 +1,6 @@
 import SaphyrVerif.Basic.Text
 import SaphyrVerif.Model.Scalars
+import SaphyrVerif.Model.Float
 /-!
 Model of the scalar *writer* of serde-saphyr (C12): `src/ser_quoting.rs` (plain-safety predicates,
 the numeric-looking regex as an explicit recogniser), the helpers of `YamlSerializer` in `src/ser.rs`
@@ -103,14 +104,43 @@ def isSpecialInfNan (s : List Char) : Bool :=
     ((a == 'i' || a == 'I') && (b == 'n' || b == 'N') && (c == 'f' || c == 'F'))
   | _ => false
 
+/-- the crate's own readers take the text for a number: `parse_int_signed::<i128>`,
+`parse_int_unsigned::<u128>` or `parse_yaml12_float::<f64>` (all with the default options) accept it -/
+def readsAsNumber (s : List Char) : Bool :=
+  (parseIntSigned 128 false s).isSome || (parseIntUnsigned 128 false s).isSome ||
+    (Float.parseYaml12Float 64 s).isSome
+
 /-- `is_ambiguous` -/
 def isAmbiguous (s : List Char) : Bool :=
   if s.isEmpty then true
+  else if s == ['<', '<'] then true
   else if s == ['~'] || eqIgnoreAsciiCase s "null".toList || eqIgnoreAsciiCase s "true".toList
         || eqIgnoreAsciiCase s "false".toList then true
   else if isSpecialInfNan s then true
   else if isNumericLooking s then true
+  else if readsAsNumber s then true
   else false
+
+def startsWithBom (s : List Char) : Bool :=
+  match s with
+  | c :: _ => c.toNat == 0xFEFF
+  | [] => false
+
+/-- after `---` / `...`: the end, a space or a tab -/
+def markerTail (r : List Char) : Bool :=
+  match r with
+  | [] => true
+  | d :: _ => d == ' ' || d == '\t'
+
+def docMarkerLike : List Char → Bool
+  | a :: b :: c :: r =>
+    ((a == '-' && b == '-' && c == '-') || (a == '.' && b == '.' && c == '.')) && markerTail r
+  | _ => false
+
+/-- `is_unsafe_plain_shape`: trailing blank, leading U+FEFF, `---` / `...` followed by the end, a space or
+a tab (byte tests on ASCII bytes = character tests) -/
+def isUnsafePlainShape (s : List Char) : Bool :=
+  s.getLast? == some ' ' || startsWithBom s || docMarkerLike s
 
 /-- `is_ambiguous_value` -/
 def isAmbiguousValue (s : List Char) (yaml12 : Bool) : Bool :=
@@ -161,9 +191,13 @@ def containsColonSpace : List Char → Bool
 /-- `str::ends_with(':')` -/
 def endsWithColon (s : List Char) : Bool := s.getLast? == some ':'
 
+/-- `s.ends_with(" -")` -/
+def endsWithBlankDash (s : List Char) : Bool := [' ', '-'].isSuffixOf s
+
 /-- `is_plain_value_safe` -/
 def isPlainValueSafe (s : List Char) (yaml12 inFlow : Bool) : Bool :=
   if isAmbiguousValue s yaml12 then false
+  else if inFlow && endsWithBlankDash s then false
   else if headRejects s then false
   else if containsColonSpace s || endsWithColon (trim s) then false
   else if inFlow then !containsAnyOrIsControl s [',', '[', ']', '{', '}', '#']
@@ -220,19 +254,19 @@ def keyEscape (c : Char) : List Char :=
 
 /-- `KeyScalarSink::serialize_str` (= `scalar_key_to_string` of a `&str`) -/
 def keySinkStr (s : List Char) (yaml12 : Bool) : List Char :=
-  if isPlainSafe s && isPlainValueSafe s yaml12 true then s
+  if isPlainSafe s && isPlainValueSafe s yaml12 true && !isUnsafePlainShape s then s
   else '"' :: (s.flatMap keyEscape ++ ['"'])
 
 /-- `write_plain_or_quoted` -/
 def writePlainOrQuoted (s : List Char) (quoteAll : Bool) : List Char :=
   if quoteAll then (if needsDoubleQuotes s then writeQuoted s else writeSingleQuoted s)
-  else if isPlainSafe s then s
+  else if isPlainSafe s && !isUnsafePlainShape s then s
   else writeQuoted s
 
 /-- `write_plain_or_quoted_value` -/
 def writePlainOrQuotedValue (s : List Char) (quoteAll yaml12 inFlow : Bool) : List Char :=
   if quoteAll then (if needsDoubleQuotes s then writeQuoted s else writeSingleQuoted s)
-  else if isPlainValueSafe s yaml12 inFlow then s
+  else if isPlainValueSafe s yaml12 inFlow && !isUnsafePlainShape s then s
   else writeQuoted s
 
 /-! ## `wrapping.rs` -/
@@ -355,15 +389,19 @@ deriving Repr
 /-- `write_indent(depth)` when `at_line_start` (emits the `%YAML 1.2` preamble on first use) -/
 def writeIndent (o : Opts) (cx : Ctx) (depth : Nat) : List Char :=
   if cx.atLineStart then
-    (if !cx.docStarted && o.yaml12 then "%YAML 1.2\n".toList else []) ++ spaces (o.indentStep * depth)
+    (if !cx.docStarted && o.yaml12 then "%YAML 1.2\n---\n".toList else []) ++ spaces (o.indentStep * depth)
   else []
+
+/-- "a literal block cannot carry CR / NUL / other controls, nor a content of line breaks only" -/
+def blockOk (v : List Char) : Bool :=
+  !v.any (fun c => isControl c && c != '\n' && c != '\t') && !(trimEndNl v).isEmpty
 
 /-- the automatic style selection at the top of `serialize_str` (no explicit LitStr/FoldStr pending) -/
 def autoStyle (o : Opts) (inFlow : Bool) (v : List Char) : Option StrStyle :=
   if !inFlow && !o.quoteAll then
     if v.contains '\n' then
       if o.preferBlock then
-        if v.length > o.foldedWrap then some .literal
+        if v.length > o.foldedWrap && blockOk v then some .literal
         else
           let normalized := (trimEndNl v).map (fun c => if c == '\n' then ' ' else c)
           if isPlainValueSafe normalized o.yaml12 false then some .literal else none
@@ -400,7 +438,8 @@ def serializeStr (o : Opts) (cx : Ctx) (v : List Char) : Res (List Char) :=
     let indentN := o.indentStep * bodyBase
     let content := trimEndNl v
     let needsIndicator := firstLineLeadingSpaces content > 0
-    if needsIndicator && indentN > 9 then
+    let shallowInlineSeq := o.indentStep < 2 && !wasMapValue && base > 0
+    if (needsIndicator && (indentN > 9 || base > 0)) || shallowInlineSeq then
       -- fall back to quoting; `write_space_if_pending` already ran, the indent too
       .ok (sp ++ ind0 ++ (writePlainOrQuotedValue v o.quoteAll o.yaml12 cx.inFlow) ++ (if cx.inFlow then [] else ['\n']))
     else
@@ -440,7 +479,7 @@ def Pos.ofCode : Nat → Pos
   | 0 => .root | 1 => .mapValue | 2 => .mapKey | 3 => .seqItem | 4 => .flowSeq | 5 => .flowMapValue
   | 6 => .flowMapKey | 7 => .variant | 8 => .nestedMapValue | 9 => .seqInMap | _ => .seqInSeq
 
-def preamble (o : Opts) : List Char := if o.yaml12 then "%YAML 1.2\n".toList else []
+def preamble (o : Opts) : List Char := if o.yaml12 then "%YAML 1.2\n---\n".toList else []
 
 /-- `to_string_with_options(shape(pos, v), o)`: the serializer state in front of the scalar is the one
 the collection serializers of `ser.rs` establish for that shape (derived by reading `serialize_map`,
